@@ -54,7 +54,7 @@ def gen_case(r, index, tier):
     H = max(2, int(round(W * r.choice([0.1, 0.25, 0.5, 1, 1, 2, 4, 8]))))   # from square to very elongated dies
     die = {"family": r.choice(["dyadic", "decimal"]), "scale_exp": r.weighted([(0, 5), (1, 2), (-3, 1), (-4, 1), (3, 1), (5, 0.5)]),
            "nx": W, "ny": H, "regions": []}
-    nl = designs.gen_netlist(r, die, nmods=r.randint(3, 9), kinds=["soft", "soft", "soft", "fixed", "terminal"],
+    nl = designs.gen_netlist(r, die, nmods=r.randint(3, 9) if r.chance(0.95) else r.randint(12, 24), kinds=["soft", "soft", "soft", "fixed", "terminal"],
                              allow_terminals=True, need_centers=True, connected=r.chance(0.7), allow_regions=False)
     mods = nl["modules"]
     for m in mods:
